@@ -326,14 +326,14 @@ func runHistCase(w *bufio.Writer, ops []histOp, st *rphStats) {
 	for _, f := range failed {
 		fmt.Fprintf(w, "MONFAIL\t%s\t%s\n", f, strings.Join(log, " "))
 	}
-	fmt.Fprintf(w, "CASE %d %s\n", b2i(nontrivial), u.App("HistCase", u.List(terms), ivs(fin), u.Z(h.DeletedBelow()), ivs(back)))
+	fmt.Fprintf(w, "CASE %d %s\n", rphB2i(nontrivial), u.App("HistCase", u.List(terms), ivs(fin), u.Z(h.DeletedBelow()), ivs(back)))
 	if st.samples < 1 && len(ops) > 5 && len(ops) < 16 {
 		st.samples++
 		fmt.Fprintf(w, "SAMPLE\thistory: %s => ranges %v\n", strings.Join(log, " "), fin)
 	}
 }
 
-func b2i(b bool) int {
+func rphB2i(b bool) int {
 	if b {
 		return 1
 	}
@@ -820,7 +820,7 @@ func (x *handlerRunner) finish(w *bufio.Writer) {
 			break
 		}
 	}
-	fmt.Fprintf(w, "CASE %d %s\n", b2i(x.nontrivial), u.App("HandlerCase", u.List(x.terms), finTerm(fin)))
+	fmt.Fprintf(w, "CASE %d %s\n", rphB2i(x.nontrivial), u.App("HandlerCase", u.List(x.terms), finTerm(fin)))
 	if x.st.hsamples < 1 && len(x.terms) >= 8 && len(x.terms) <= 14 {
 		x.st.hsamples++
 		fmt.Fprintf(w, "SAMPLE\thandler: %s\n", strings.Join(x.log, " "))
@@ -1148,7 +1148,7 @@ func emitValidCases(w *bufio.Writer, r *u.Rng, st *rphStats, n int) int {
 				}
 			}
 		}()
-		fmt.Fprintf(w, "CASE %d %s\n", b2i(len(rs) > 1), u.App("ValidCase", ivs(rs), u.B(valid), u.List(acks)))
+		fmt.Fprintf(w, "CASE %d %s\n", rphB2i(len(rs) > 1), u.App("ValidCase", ivs(rs), u.B(valid), u.List(acks)))
 		cnt++
 	}
 	return cnt
